@@ -6,6 +6,10 @@ set / counts for every name-filter pair and a canonical document with mutants.  
 field `schema[root][field].as_strategy()` (and the operations of `get_all_operations()`) is drawn from.  `case.body` is parsed with
 graphql-core's PARSER only; the projected AST is judged by spec/GraphQLJudge.tla.  graphql-core's `validate` runs alongside:
 a disagreement with the TLA+ verdict is reported for triage as a spec discrepancy - it is not the oracle.
+
+Schema edited by a load hook (shape.hook): the SOURCE schema (`source` of the exported view = SourceTypes(shape)) is what gets
+loaded, while a global `after_load_schema` hook performs the exported `edits` (HookEdits(shape)) on `schema.raw_schema` in place;
+everything observed is judged against the EDITED schema (`types` = Types(shape), AllOps(shape)) like for any other shape.
 """
 from __future__ import annotations
 
@@ -114,6 +118,57 @@ def to_introspection(view: dict) -> dict:
         "mutationType": {"name": roots["mutation"]} if roots["mutation"] else None,
         "subscriptionType": {"name": roots["subscription"]} if roots["subscription"] else None,
         "types": out, "directives": []}}
+
+
+def source_view(view: dict) -> dict:
+    """The schema document that is LOADED: the source the hook edits (equal to the view itself when there is no hook)."""
+    return dict(view, types=view["source"]) if view.get("edits") else view
+
+
+def make_load_hook(view: dict):
+    """HookEdits(shape) as a real `after_load_schema` hook: edits the introspection result of the loaded schema in place."""
+    types, edits = view["types"], view["edits"]
+
+    def itype(t):
+        if t[0] == "NN":
+            return {"kind": "NON_NULL", "name": None, "ofType": itype(t[1:])}
+        if t[0] == "L":
+            return {"kind": "LIST", "name": None, "ofType": itype(t[1:])}
+        return {"kind": _KIND[types[t[0]]["kind"]], "name": t[0], "ofType": None}
+
+    def after_load_schema(context, schema):
+        by_name = {t["name"]: t for t in schema.raw_schema["__schema"]["types"]}
+        for e in edits:
+            type_def = by_name[e["type"]]
+            if e["op"] == "drop-field":
+                type_def["fields"] = [f for f in type_def["fields"] if f["name"] != e["field"]]
+            else:
+                for f in type_def["fields"]:
+                    if f["name"] == e["field"]:
+                        for a in f["args"]:
+                            if a["name"] == e["arg"]:
+                                a["type"] = itype(e["to"])
+                                a["defaultValue"] = DEFAULTS[e["to"][-1]] if e["dflt"] else None
+
+    return after_load_schema
+
+
+def with_load_hook(view: dict, load):
+    """`load`, executed while the view's hook (if it has one) is registered globally."""
+    if not view.get("edits"):
+        return load
+
+    def hooked():
+        import schemathesis
+
+        hook = make_load_hook(view)
+        schemathesis.hook(hook)
+        try:
+            return load()
+        finally:
+            schemathesis.hooks.unregister(hook)
+
+    return hooked
 
 
 # --------------------------------------------------------------------------------------------------------------------
@@ -402,9 +457,10 @@ def work(item: dict) -> dict:
     view, loader, sidx = item["view"], item["loader"], item["s"]
     rng_seed = item["seed"]
     res = {"s": sidx, "loader": loader, "docs": [], "ops": [], "errors": [], "draws": 0, "canon": [], "gql": {}, "wire": [], "maps": []}
-    gschema = graphql.build_schema(to_sdl(view))  # independent of schemathesis; used only for the side-by-side validate
-    live = _Live(view, loader, item.get("send_path", LIVE_PATH)) if loader in ("url", "wsgi", "asgi") else None
-    load = live.load if live else (lambda: _load(view, loader))
+    gschema = graphql.build_schema(to_sdl(view))  # independent of schemathesis; used only for the side-by-side validate (the EDITED schema)
+    src = source_view(view)                       # what is loaded; the hook of the shape (if any) turns it into `view`
+    live = _Live(src, loader, item.get("send_path", LIVE_PATH)) if loader in ("url", "wsgi", "asgi") else None
+    load = with_load_hook(view, live.load if live else (lambda: _load(src, loader)))
     try:
         _work_body(item, res, gschema, live, load)
     finally:
@@ -672,12 +728,18 @@ def doc_signature(view: dict, d: dict, rule: str) -> str:
         feat = _arg_features(view, d, rule)
     else:
         feat = "ret=%s" % sh["ret"]
-    return "C20:%s:%s" % (rule, feat)
+    return "C20:%s:%s%s" % (rule, feat, _hook_feature(view))
+
+
+def _hook_feature(view: dict) -> str:
+    """Schema feature of the signature: the schema in force was produced by a load hook (absent for plain shapes)."""
+    hook = view["shape"].get("hook", "none")
+    return "" if hook == "none" else ":hook=" + hook
 
 
 def ops_signature(view: dict, o: dict, rule: str) -> str:
-    return "C20:%s:incl=%s:excl=%s:clash=%s:roots=%s" % (rule, o["filt"]["incl"]["k"], o["filt"]["excl"]["k"], view["shape"]["mut"],
-                                                        view["shape"]["names"])
+    return "C20:%s:incl=%s:excl=%s:clash=%s:roots=%s%s" % (rule, o["filt"]["incl"]["k"], o["filt"]["excl"]["k"], view["shape"]["mut"],
+                                                          view["shape"]["names"], _hook_feature(view))
 
 
 def enumerate_family(ctx: Ctx):
@@ -777,7 +839,8 @@ def evaluate(ctx: Ctx, out: Outcome, views: list[dict], results: list[dict]) -> 
         m_ = maps[k - nm0]
         view = views[m_["s"]]
         for r in bad[k]:
-            out.violations.append(Violation("C20:%s:clash=%s:roots=%s:sub=%s" % (r, view["shape"]["mut"], view["shape"]["names"], view["shape"]["sub"]),
+            out.violations.append(Violation("C20:%s:clash=%s:roots=%s:sub=%s%s" % (r, view["shape"]["mut"], view["shape"]["names"], view["shape"]["sub"],
+                                                                                 _hook_feature(view)),
                                             "%s: iterating the schema gives roots %s and fields %s (%s)" % (r, m_["roots"], m_["fields"], m_["loader"]),
                                             {"kind": "maps", "view": view, "loader": m_["loader"], "rule": r}))
     # the specification's canonical documents and mutants against graphql-core
@@ -892,7 +955,7 @@ def evaluate_histories(ctx: Ctx, out: Outcome, cases: list[dict], results: list[
     docs = [d for r in results for d in r["docs"]]
     obs = [{"k": "hdoc", "s": sidx[json.dumps(cases[d["h"]]["shape"], sort_keys=True)], "hist": cases[d["h"]]["hist"], "step": d["step"],
             "doc": d["doc"]} for d in docs]
-    bad, judged, t_judge = judge(ctx, shapes or [{"args": [], "ret": "scalar", "mut": "none", "names": "std", "sub": False, "marg": {"base": "", "wrap": ""}}], obs, tag)
+    bad, judged, t_judge = judge(ctx, shapes or [{"args": [], "ret": "scalar", "mut": "none", "names": "std", "sub": False, "marg": {"base": "", "wrap": ""}, "hook": "none"}], obs, tag)
     discrepancies = 0
     for i, d in enumerate(docs):
         case = cases[d["h"]]
@@ -959,8 +1022,9 @@ def run(ctx: Ctx) -> Outcome:
     items = []
     for s, view in enumerate(views):
         for li, loader in enumerate(loaders):
-            if ctx.quick and loader == "json" and s % 2:
-                continue        # quick: the JSON front doors on every second shape (thorough: on all)
+            hooked = view["shape"]["hook"] != "none"
+            if ctx.quick and loader == "json" and s % 2 and not hooked:
+                continue        # quick: the JSON front doors on every second shape (thorough: on all; hook-edited schemas: on all)
             ld = loader
             if loader == "json" and s % 7 == 3:
                 ld = ["json-data", "file-json"][(s // 7) % 2]     # the other front doors of the same loaders, on a slice of the family
@@ -969,12 +1033,18 @@ def run(ctx: Ctx) -> Outcome:
             # SDL loader: all generation configs of the tier; JSON loaders: 2 of them
             items.append({"s": s, "view": view, "loader": ld, "cfgs": cfgs if loader == "sdl" else CFGS_QUICK[::3], "n": n,
                           # the other access orders matter where a Mutation type exists; elsewhere on a slice of the family in the quick tier
-                          "all_access": (not ctx.quick) or view["shape"]["mut"] != "none" or s % 4 == 0, "seed": (ctx.seed * 1000003 + s * 17 + li) % (2 ** 31)})
+                          "all_access": (not ctx.quick) or view["shape"]["mut"] != "none" or s % 4 == 0 or hooked, "seed": (ctx.seed * 1000003 + s * 17 + li) % (2 ** 31)})
     # live front doors: the schema is loaded FROM an endpoint (HTTP introspection, WSGI, ASGI) and the cases are SENT to it
     step = 6 if ctx.quick else 2
     for s, view in enumerate(views):
         kind = {1: "url", 3: "wsgi", 5: "asgi"}.get(s % 6) if ctx.quick else ("url", "wsgi", "asgi")[s % 3]
-        if kind is None or (not ctx.quick and s % step):
+        if view["shape"]["hook"] != "none":
+            # hook-edited schemas: every fourth one (quick) / every one (thorough) is also loaded FROM an endpoint, the front doors rotate
+            nh = sum(1 for v in views[:s] if v["shape"]["hook"] != "none")
+            kind = ("url", "wsgi", "asgi")[(nh // 4) % 3] if (nh % 4 == 0 or not ctx.quick) else None
+        elif not ctx.quick and s % step:
+            kind = None
+        if kind is None:
             continue
         items.append({"s": s, "view": dict(view, filters=view["filters"][:6]), "loader": kind, "cfgs": CFGS_QUICK[1:2] if kind != "url" else CFGS_QUICK[:1],
                       "n": n, "all_access": s % 4 == 1 or view["shape"]["mut"] != "none", "engine": kind == "url" and (not ctx.quick or s % 12 == 1),
@@ -1012,7 +1082,8 @@ def run(ctx: Ctx) -> Outcome:
         "distinct_nontrivial": nontrivial,
         "rule": "every schema shape reachable in GraphQL.tla under %s (TLC-enumerated) x loaders %s x generation configs %s; per operation %d "
                 "Hypothesis draws (distinct bodies judged); every name-filter pair of Filters(shape); non-trivial = distinct document with "
-                "arguments or a sub-selection; plus every history of GraphQLHistory.tla under %s (configure / register scalar / draw, 3 steps, "
+                "arguments or a sub-selection; shapes with hook != none are loaded from SourceTypes(shape) under an after_load_schema hook performing "
+                "HookEdits(shape) and judged against the edited schema Types(shape); plus every history of GraphQLHistory.tla under %s (configure / register scalar / draw, 3 steps, "
                 "ending in a draw) replayed on one schema object, each document judged against the configuration of its own step" % (
                     cfg, sorted({i["loader"] for i in items}), cfgs, n, hcfg),
         "exhaustive": False,
@@ -1020,6 +1091,11 @@ def run(ctx: Ctx) -> Outcome:
         "constants": {"cfg": cfg, "draws_per_operation": n, "generation_configs(allow_null,allow_x00,ascii)": cfgs},
         "documents_judged": m["docs"], "offered_observations_judged": m["ops"],
         "requests_on_the_wire_judged": m["wire"], "requests_on_the_wire_by(loader,access)": {"%s/%s" % k2: v for k2, v in sorted(m["wire_by"].items())},
+        "hook_edited_schemas": {
+            "shapes": sum(1 for v in views if v["shape"]["hook"] != "none"),
+            "loads_with_an_after_load_schema_hook(shape x loader)": sum(1 for i in items if i["view"]["shape"]["hook"] != "none"),
+            "documents_judged_against_the_edited_schema": sum(1 for d in docs if views[d["s"]]["shape"]["hook"] != "none"),
+            "offered_observations_judged_against_the_edited_schema": sum(1 for r in results for o in r["ops"] if views[o["s"]]["shape"]["hook"] != "none")},
         "mapping_access_observations_judged": m["maps"], "documents_rejected": m["bad_docs"],
         "documents_with_undetermined_values": m["unknown_docs"],
         "skipped_outside_fragment": m["unknown_docs"] + len(errors) - len(unexpected),
@@ -1097,7 +1173,7 @@ def selftest(ctx: Ctx) -> bool:
 
     import graphql
 
-    shape = {"args": [{"name": "a", "base": "Int", "wrap": "T!"}], "ret": "object", "mut": "same", "names": "std", "sub": False, "marg": {"base": "", "wrap": ""}}
+    shape = {"args": [{"name": "a", "base": "Int", "wrap": "T!"}], "ret": "object", "mut": "same", "names": "std", "sub": False, "marg": {"base": "", "wrap": ""}, "hook": "none"}
     cfg = {"allowNull": False, "allowX00": False, "ascii": False}
     good = {"k": "doc", "s": 1, "cfg": cfg, "root": "query", "field": "f",
             "doc": project_doc(graphql.parse('{ f(a: 5) { id child { tag(n: 1, c: RED) } } }', no_location=True))}
@@ -1119,16 +1195,25 @@ def selftest(ctx: Ctx) -> bool:
     def st(a, cfg=dflt, has=False, root="", field="", kind=""):
         return {"a": a, "cfg": cfg, "has": has, "root": root, "field": field, "kind": kind}
 
-    hshape = {"args": [{"name": "a", "base": "Inner", "wrap": "[T]"}], "ret": "scalar", "mut": "none", "names": "std", "sub": False, "marg": {"base": "", "wrap": ""}}
+    hshape = {"args": [{"name": "a", "base": "Inner", "wrap": "[T]"}], "ret": "scalar", "mut": "none", "names": "std", "sub": False, "marg": {"base": "", "wrap": ""}, "hook": "none"}
     hist = [st("draw", root="query", field="f"), st("configure", cfg=strict), st("draw", root="query", field="f")]
     hdoc = project_doc(graphql.parse('{ f(a: [{a: 1, b: "\u00e9"}, null]) }', no_location=True))
-    rshape = {"args": [{"name": "a", "base": "Reg", "wrap": "T"}], "ret": "scalar", "mut": "none", "names": "std", "sub": False, "marg": {"base": "", "wrap": ""}}
+    rshape = {"args": [{"name": "a", "base": "Reg", "wrap": "T"}], "ret": "scalar", "mut": "none", "names": "std", "sub": False, "marg": {"base": "", "wrap": ""}, "hook": "none"}
     rhist = [st("draw", root="query", field="f"), st("register", kind="int"), st("draw", dflt, True, "query", "f")]
     rdoc = project_doc(graphql.parse('{ f(a: "r1") }', no_location=True))
     hobs = [{"k": "hdoc", "s": 2, "hist": hist, "step": 1, "doc": hdoc}, {"k": "hdoc", "s": 2, "hist": hist, "step": 3, "doc": hdoc},
             {"k": "hdoc", "s": 3, "hist": rhist, "step": 1, "doc": rdoc}, {"k": "hdoc", "s": 3, "hist": rhist, "step": 3, "doc": rdoc}]
-    bad, _, _ = judge(ctx, [shape, hshape, rshape], [good, wrong_root, other_field, null_arg, big, ops_good, ops_bad] + hobs, tag="-selftest")
-    expect = {1: ["wrong-operation-type"], 2: ["not-exactly-the-field"], 3: ["bad-argument-value", "null-when-disabled"],
+    # a schema edited by a load hook: the oracle speaks about the EDITED schema - an operation list that still contains the field the
+    # hook removed, and a document typed after the SOURCE declaration of a retyped argument (String where the hook set Int!), are rejected
+    kshape = dict(shape, mut="none", hook="both")
+    stale_ops = {"k": "ops", "s": 4, "filt": {"incl": none, "excl": none},
+                 "offered": [{"root": "query", "field": "f"}, {"root": "query", "field": "debug"}, {"root": "query", "field": "ping"}], "selected": 3, "total": 3}
+    edited_ops = dict(stale_ops, offered=[{"root": "query", "field": "f"}, {"root": "query", "field": "ping"}], selected=2, total=2)
+    stale_doc = dict(good, s=4, doc=project_doc(graphql.parse('{ f(a: "5") { id } }', no_location=True)))
+    hobs += [stale_ops, edited_ops, stale_doc, dict(good, s=4)]
+    bad, _, _ = judge(ctx, [shape, hshape, rshape, kshape], [good, wrong_root, other_field, null_arg, big, ops_good, ops_bad] + hobs, tag="-selftest")
+    expect = {11: ["offered-set", "selected-count", "total-count"], 13: ["bad-argument-value"],
+              1: ["wrong-operation-type"], 2: ["not-exactly-the-field"], 3: ["bad-argument-value", "null-when-disabled"],
               4: ["bad-argument-value"], 6: ["offered-set", "selected-count"],
               8: ["non-ascii-with-ascii-codec", "null-when-disabled"], 10: ["bad-argument-value"]}
     if bad != expect:
